@@ -1126,6 +1126,10 @@ package iavl
 //@   props C08 C07
 //@   nosafety
 //@   requires ndb != nil
+//@   callsite KeyBytes$@1 [present-start-formatted] start != nil && len(arg1) == 1 && arg1[0] == start
+//@   callsite KeyBytes$@2 [present-end-formatted-even-when-empty] end != nil && len(arg1) == 1 && arg1[0] == end
+//@   callsite KeyFormat).Key$@1 [absent-start-is-the-bare-prefix] start == nil
+//@   callsite KeyFormat).Key$@2 [absent-end-is-the-prefix-successor] end == nil
 //@   callsite KVStoreWithBatch).Iterator [ascending] ascending && arg0 == startFormatted && arg1 == endFormatted
 //@   callsite KVStoreWithBatch).ReverseIterator [descending] !ascending && arg0 == startFormatted && arg1 == endFormatted
 //@   modifies *
